@@ -29,12 +29,13 @@ import vlib
 import reader_dump as rd
 import array_harness as ah
 import reserve_many
+import ref_modules
 from common import prove, leanchecker
 from vlib import log
 
 PROP = "C10"
-MODULES = ["W2c2Verif.Props.C10", "W2c2Verif.Props.C10Array"]
-GENS = [("Reader", "gen_reader"), ("Array", "gen_array")]
+MODULES = ["W2c2Verif.Props.C10", "W2c2Verif.Props.C10Array", "W2c2Verif.Props.C10Writer"]
+GENS = [("Reader", "gen_reader"), ("Array", "gen_array"), ("ImplWriter", "gen_implwriter")]
 READERDRIVER = os.path.join(vlib.LEAN, ".lake", "build", "bin", "readerdriver")
 
 SAN = ["-O1", "-g", "-fsanitize=address,undefined", "-fno-omit-frame-pointer"]
@@ -105,12 +106,16 @@ def site_key(kind, site):
     return re.sub(r"[^A-Za-z0-9_.:-]+", "-", f"{kind}-{site}")[:90]
 
 
-def run_case(exe, workdir, idx, data, opts, asan_opts=ASAN_LATER, outname="m.c", timeout=120):
+def run_case(exe, workdir, idx, data, opts, asan_opts=ASAN_LATER, outname="m.c", timeout=120, ref=None):
     sub = os.path.join(workdir, f"r{idx}")
     os.makedirs(sub, exist_ok=True)
     wasm = os.path.join(sub, "m.wasm")
     with open(wasm, "wb") as f:
         f.write(data)
+    if ref is not None:                       # -r REFERENCE: the reference module next to the module
+        with open(os.path.join(sub, "ref.wasm"), "wb") as f:
+            f.write(ref)
+        opts = list(opts) + ["-r", os.path.join(sub, "ref.wasm")]
     env = dict(os.environ)
     env["ASAN_OPTIONS"] = asan_opts
     env["UBSAN_OPTIONS"] = "print_stacktrace=1"
@@ -273,11 +278,14 @@ def run(tier):
     outcome_hist = collections.Counter()
     model_hist = collections.Counter()
 
-    def note_finding(key, what, data, opts, build, asan_opts, res):
+    refs = {}          # label -> reference module bytes (cases run with -r)
+
+    def note_finding(key, what, data, opts, build, asan_opts, res, label=None):
         cur = findings.get(key)
         if cur is None or len(data) < len(cur["data"]):
             findings[key] = {"what": what, "data": data, "opts": list(opts), "build": build, "asan_options": asan_opts,
-                             "rc": res["rc"], "signal": res["signal"], "reports": res["reports"][:4], "stderr_tail": res["stderr_tail"]}
+                             "rc": res["rc"], "signal": res["signal"], "reports": res["reports"][:4], "stderr_tail": res["stderr_tail"],
+                             "ref": refs.get(label), "label": label}
 
     with vlib.scratch("c10-") as d:
         repo = vlib.copy_repo(os.path.join(d, "repo"))
@@ -299,6 +307,14 @@ def run(tier):
         for k, (label, data, optsets) in enumerate(reserve_many.modules(chk.rng, tier)):
             for j, opts in enumerate(optsets):
                 valid.append(("reserve:" + label, data, opts, ASAN_LATER, ("gcc-strict", "clang-strict", "gcc-recover")[(k + j) % 3]))
+        # -r REFERENCE: the writers work on a static and a dynamic ID list, both shorter than the module's function count
+        npairs = 0
+        for k, (label, data, ref, optsets) in enumerate(ref_modules.pairs(chk.rng, tier)):
+            refs[label] = ref
+            npairs += 1
+            for j, opts in enumerate(optsets):
+                valid.append((label, data, opts, ASAN_LATER, ("gcc-strict", "clang-strict", "gcc-recover")[(k + j) % 3]))
+        chk.coverage["reference_pairs"] = npairs
         nmod = 4 if tier == "quick" else 30
         small = []
         for profile in PROFILES:
@@ -350,7 +366,7 @@ def run(tier):
         allcases = [("valid",) + c for c in valid] + [("trunc",) + c for c in trunc]
         verdicts = model_verdicts([(c[2], "-g" in c[3]) for c in allcases]) if ok else [None] * len(allcases)
         with concurrent.futures.ThreadPoolExecutor(max_workers=min(14, (os.cpu_count() or 4))) as ex:
-            results = list(ex.map(lambda t: run_case(exes[t[1][5]], d, t[0], t[1][2], t[1][3], t[1][4]), enumerate(allcases)))
+            results = list(ex.map(lambda t: run_case(exes[t[1][5]], d, t[0], t[1][2], t[1][3], t[1][4], ref=refs.get(t[1][1])), enumerate(allcases)))
         nmis = 0
         for (cls, label, data, opts, ao, build), res, mv in zip(allcases, results, verdicts):
             chk.count_case((cls, data, tuple(opts), build), True, None)
@@ -368,9 +384,9 @@ def run(tier):
             if res["rc"] == "timeout":
                 keys.append("timeout")
             for k in keys:
-                note_finding(k, "", data, opts, build, ao, res)
+                note_finding(k, "", data, opts, build, ao, res, label)
             if cls == "valid" and not flagged and res["rc"] != 0 and not (opts and opts[0] == "-d"):
-                note_finding("valid-module-nonzero-exit", "", data, opts, build, ao, res)
+                note_finding("valid-module-nonzero-exit", "", data, opts, build, ao, res, label)
             # ---- tie: the reader model's verdict vs what the real reader did
             if mv is None:
                 continue
@@ -422,7 +438,11 @@ def run(tier):
             fh.write(f["data"])
         what = DESCR.get(key, f"the instrumented translator reports {f['reports'][:1] or f['signal'] or f['rc']} on a "
                          + ("valid module" if True else ""))
-        chk.violation(key, what, {"reproducer": wasm_path, "hex": f["data"].hex(), "options": f["opts"], "build": f["build"],
+        extra = {}
+        if f.get("ref") is not None:
+            what += f" with -r REFERENCE ({f['label']}): w2c2 {' '.join(f['opts'])} -r ref.wasm m.wasm m.c"
+            extra = {"ref_hex": f["ref"].hex(), "pair": f["label"]}
+        chk.violation(key, what, {**extra, "reproducer": wasm_path, "hex": f["data"].hex(), "options": f["opts"], "build": f["build"],
                                   "asan_options": f["asan_options"], "observed": {"rc": f["rc"], "signal": f["signal"], "reports": f["reports"]},
                                   "stderr_tail": f["stderr_tail"],
                                   "replay_cmd": "python3 tools/check.py C10 --replay <this file>"}, True)
@@ -453,8 +473,9 @@ def replay(path):
         repo = vlib.copy_repo(os.path.join(d, "repo"))
         cc, flags = BUILDS[r.get("build", "gcc-strict")]
         exe = rd.build_w2c2(repo, d, "w2c2_replay", cc, flags)
-        res = run_case(exe, d, 0, bytes.fromhex(r["hex"]), r.get("options", []), r.get("asan_options", ASAN_LATER))
-    print("w2c2", " ".join(r.get("options", [])), "->", "rc", res["rc"], "signal", res["signal"])
+        res = run_case(exe, d, 0, bytes.fromhex(r["hex"]), r.get("options", []), r.get("asan_options", ASAN_LATER),
+                       ref=bytes.fromhex(r["ref_hex"]) if r.get("ref_hex") else None)
+    print("w2c2", " ".join(r.get("options", [])), ("-r REFERENCE (%s)" % r.get("pair")) if r.get("ref_hex") else "", "->", "rc", res["rc"], "signal", res["signal"])
     for rep in res["reports"][:6]:
         print("  ", rep)
     bad = bool(res["reports"]) or res["signal"] is not None
